@@ -424,6 +424,43 @@ def dynamic(pid, tier, seed, cases):
             res["features"][k] = res["features"].get(k, 0) + 1
             if run.is_crash(ji):
                 res["violations"].append({"case": c, "impl": ji, "what": "the library crashed: %s" % json.dumps(ji)[:300]})
+    if pid == "C13":
+        # executed, not proved: the header is a self-contained C file (gcc -fsyntax-only) when the type is a builtin
+        import subprocess, tempfile
+        sub = [c for c in cases if c.raw_yaml is None][:300]
+        impl = run.run_impl_only(sub)
+        d = tempfile.mkdtemp(prefix="hdr_", dir=os.path.join(run.BUILD, "scratch"))
+        try:
+            n = 0
+            for c in sub:
+                ji = run.normalise(impl[c.cid])
+                if props.outcome(ji)[0] != "ok":
+                    continue
+                st = ji["parse"]["ok"]["settings"]
+                if st["symbols_header_type"] not in ("char", "unsigned int", "int", "short", "long"):
+                    continue
+                syms = ji["gen"]["ok"]["main"]["symbols"]
+                import re as _re
+                if not all(_re.fullmatch(r"[A-Za-z_][A-Za-z0-9_]*", x) for x in syms):
+                    continue            # names that are not C identifiers: outside the property's scope
+                n += 1
+                if n > (40 if tier == "quick" else 1000):
+                    break
+                f = os.path.join(d, "h%d.c" % n)
+                with open(f, "w") as fh:
+                    fh.write('#include "h%d.h"\n#include "h%d.h"\n' % (n, n))
+                with open(os.path.join(d, "h%d.h" % n), "w") as fh:
+                    fh.write(ji["gen"]["ok"]["main"]["header"])
+                r = subprocess.run(["gcc", "-fsyntax-only", "-Wall", "-Werror", "-x", "c", f], cwd=d,
+                                   stdout=subprocess.PIPE, stderr=subprocess.STDOUT, text=True, timeout=60)
+                res["evaluations"] += 1
+                res["features"]["gcc-syntax-only"] = res["features"].get("gcc-syntax-only", 0) + 1
+                if r.returncode != 0:
+                    res["violations"].append({"case": c, "impl": None,
+                                              "what": "gcc rejects the header (included twice): " + r.stdout[:300]})
+        finally:
+            import shutil
+            shutil.rmtree(d, ignore_errors=True)
     if pid == "C20":
         from . import climon
         r = climon.run(cases, tier, seed)
